@@ -283,6 +283,102 @@ func c07(c *core.Ctx) {
 		if n == 0 {
 			c.Missing("full-read call sites in httpgrpc")
 		}
+		// sink-driven: provenance of every buffer handed to a decoder or to the
+		// message channel
+		for _, fn := range fns {
+			core.Instrs(fn, func(in ssa.Instruction) {
+				var buf ssa.Value
+				what := ""
+				switch x := in.(type) {
+				case *ssa.Call:
+					ci := core.InfoOf(&x.Call)
+					if ci.Name != "Unmarshal" {
+						return
+					}
+					for _, a := range core.Args(&x.Call) {
+						if core.TypeStr(a.Type()) == "[]byte" {
+							buf = a
+						}
+					}
+					what = "Unmarshal"
+				case *ssa.Send:
+					if core.TypeStr(x.X.Type()) == "[]byte" {
+						buf = x.X
+						what = "chan-send"
+					}
+				case *ssa.Select:
+					for _, st := range x.States {
+						if st.Send != nil && core.TypeStr(st.Send.Type()) == "[]byte" {
+							buf = st.Send
+							what = "chan-send"
+						}
+					}
+				}
+				if buf == nil {
+					return
+				}
+				key := core.FuncName(fn) + ":" + what + "(" + core.ValName(buf) + "):provenance"
+				bad := ""
+				for _, o := range core.Origins(buf) {
+					switch y := o.(type) {
+					case *ssa.MakeSlice:
+						// must be filled by a full read whose nil error dominates (checked above); here: such a read exists
+						found := false
+						for _, r := range core.Refs(y) {
+							if call, ok := r.(*ssa.Call); ok {
+								ci := core.InfoOf(&call.Call)
+								if ci.Is("io.ReadFull") || ci.Is("io.ReadAtLeast") {
+									found = true
+								}
+							}
+						}
+						if !found {
+							bad = "a made buffer that is not filled by io.ReadFull/io.ReadAtLeast"
+						}
+						continue
+					case *ssa.Parameter:
+						continue
+					case *ssa.UnOp:
+						if y.Op == token.ARROW {
+							continue
+						}
+					case *ssa.Const:
+						continue
+					}
+					call, idx, ok := core.CallResult(o)
+					if !ok {
+						if ex, isEx := o.(*ssa.Extract); isEx {
+							if _, isSel := ex.Tuple.(*ssa.Select); isSel {
+								continue // received from the message channel
+							}
+						}
+						bad = "a value of unrecognised provenance (" + core.ValName(o) + ")"
+						continue
+					}
+					ci := core.InfoOf(&call.Call)
+					switch {
+					case idx == 0 && (ci.Is("io.ReadAll") || ci.Is("io/ioutil.ReadAll")):
+						arg := core.Strip(call.Call.Args[0])
+						if ci2, isCI := call.Call.Args[0].(*ssa.ChangeInterface); isCI {
+							arg = ci2.X
+						}
+						_, f, isF := core.FieldOf(arg)
+						if !isF || f != "Body" {
+							bad = "ReadAll of something other than the HTTP body itself (a wrapped/limited reader ends early without error: a truncated frame would be decoded as a message)"
+						}
+					case idx == 0 && ci.Name == "Marshal":
+					case idx == 0 && ci.Name == "DecodeString":
+					default:
+						bad = "the result of " + ci.Full()
+					}
+				}
+				if bad != "" {
+					c.Fail(key, in.Pos(), "buffer handed to %s comes from %s", what, bad)
+				} else {
+					c.Ok(key, in.Pos(), "buffer comes from a full read / the whole HTTP body / the message channel / a codec")
+				}
+			})
+		}
 		c.EndRule()
 	}
 
